@@ -189,7 +189,7 @@ def make_case(seed, i):
 
 def add_docstrings_dx(r, body, top=False):
     """docstrings of the fragment of C02_tidy_fix_preserves_trace_stage2 / _stage3 (Fragment.dx_docs): at the head of the
-    module and of def bodies, every doctest example a load-only expression statement (names, attribute chains, calls)
+    module and of def bodies, every doctest example a load-only expression statement (names, attribute chains, calls) or an assignment of one to a name
     that reads the imports of c05.to_u2 (imp1..imp4) or other names; {brace} identifiers from the same pool"""
     pool = ["imp1", "imp2", "imp3", "imp4"] + G.NAMES[:4]
 
@@ -202,8 +202,10 @@ def add_docstrings_dx(r, body, top=False):
                 exs.append(["expr", ld])
             elif k < .8:
                 exs.append(["expr", ["op", "call", [ld, ["load", r.choice(pool), []]]]])
-            else:
+            elif k < .9:
                 exs.append(["expr", ["op", "call", [ld, ["op", "esc", []]]]])
+            else:
+                exs.append(["assign", [["n", r.choice(["dv1", "dv2"] + pool[4:])]], ld])     # >>> name = load
         return ["doc", exs, [r.choice(pool) for _ in range(r.choice([0, 0, 1, 2]))]]
     for s in list(body):
         if s[0] == "def":
